@@ -7,6 +7,7 @@ import (
 	"sync"
 
 	goat "github.com/avos-io/goat"
+	"github.com/avos-io/goat/gen/goatorepo"
 	"google.golang.org/grpc"
 )
 
@@ -23,7 +24,13 @@ type Topo struct {
 	// Intercept: pass-through unary and stream interceptors are installed on the server and on every client connection
 	// (only for tests that install none of their own)
 	Intercept bool `json:"intercept,omitempty"`
+	// Alias (proxy topology): the clients address the server under the name ServerAlias and the proxy's address-rewriting
+	// callback turns that into ServerName (the "NAT or DNS like functionality" the proxy documents)
+	Alias bool `json:"alias,omitempty"`
 }
+
+// ServerAlias is the name under which clients address the server when Topo.Alias is set.
+const ServerAlias = "srv-alias"
 
 func (t Topo) String() string {
 	s := "byref"
@@ -52,7 +59,9 @@ type World struct {
 
 	ctx    context.Context
 	cancel context.CancelFunc
-	// serveCtx is the context handed to Server.Serve (a child of ctx).
+	// serveCancels: per connection, the cancel function of the context handed to that connection's Server.Serve call
+	serveCancels map[string]context.CancelFunc
+	// serveCtx is the parent of those contexts (a child of ctx).
 	serveCtx    context.Context
 	serveCancel context.CancelFunc
 	wg          sync.WaitGroup
@@ -86,9 +95,17 @@ func NewWorld(topo Topo, svc *Svc, sopts []goat.ServerOption, dopts []goat.DialO
 
 	serve := func(name string, rw goat.RpcReadWriter) {
 		w.wg.Add(1)
+		cctx, ccancel := context.WithCancel(w.serveCtx) // every Serve call gets a context of its own
+		w.mu.Lock()
+		if w.serveCancels == nil {
+			w.serveCancels = map[string]context.CancelFunc{}
+		}
+		w.serveCancels[name] = ccancel
+		w.mu.Unlock()
 		go func() {
 			defer w.wg.Done()
-			err := w.Server.Serve(w.serveCtx, rw)
+			defer ccancel()
+			err := w.Server.Serve(cctx, rw)
 			w.mu.Lock()
 			w.ServeErrs[name] = err
 			w.ServeDone[name] = true
@@ -138,6 +155,15 @@ func NewWorld(topo Topo, svc *Svc, sopts []goat.ServerOption, dopts []goat.DialO
 		}()
 		w.startDemux(serve)
 	case "proxy":
+		var rewrite goat.RpcIntercepter
+		if topo.Alias {
+			rewrite = func(h *goatorepo.RequestHeader) error {
+				if h.Destination == ServerAlias {
+					h.Destination = ServerName
+				}
+				return nil
+			}
+		}
 		w.Shared = NewLink("shared", w.Tap, topo.Serialize)
 		w.Proxy = goat.NewProxy(w.ctx, "px",
 			func(id string) (goat.RpcReadWriter, error) {
@@ -146,7 +172,7 @@ func NewWorld(topo Topo, svc *Svc, sopts []goat.ServerOption, dopts []goat.DialO
 				}
 				return nil, fmt.Errorf("unknown peer %q", id)
 			},
-			nil,
+			rewrite,
 			func(id string, reason error) {
 				w.mu.Lock()
 				w.Disconnects = append(w.Disconnects, id)
@@ -163,7 +189,11 @@ func NewWorld(topo Topo, svc *Svc, sopts []goat.ServerOption, dopts []goat.DialO
 
 	if !topo.Raw {
 		for i, l := range w.Links {
-			w.CC = append(w.CC, goat.NewClientConn(l.A, ClientName(i), ServerName, dopts...))
+			dest := ServerName
+			if topo.Alias && topo.Kind == "proxy" {
+				dest = ServerAlias
+			}
+			w.CC = append(w.CC, goat.NewClientConn(l.A, ClientName(i), dest, dopts...))
 		}
 	}
 	return w
@@ -208,8 +238,18 @@ func (w *World) ServeResult(name string) (bool, error) {
 	return w.ServeDone[name], w.ServeErrs[name]
 }
 
-// CancelServeCtx cancels the context that was passed to Server.Serve.
+// CancelServeCtx cancels the contexts that were passed to Server.Serve (all connections).
 func (w *World) CancelServeCtx() { w.serveCancel() }
+
+// CancelServeCtxOf cancels the context that was passed to Server.Serve for one connection only.
+func (w *World) CancelServeCtxOf(name string) {
+	w.mu.Lock()
+	f := w.serveCancels[name]
+	w.mu.Unlock()
+	if f != nil {
+		f()
+	}
+}
 
 // NopStats is a stats.Handler that does nothing.
 type NopStats struct{}
